@@ -22,7 +22,9 @@
 (*             whose only difference is the `sf` flag of shared register    *)
 (*             objects to Dev_SharedRegSf; any other mismatch is NoMemory.  *)
 (* kind "c17"  the LIFE of one input: ev = decode, then for an instruction  *)
-(*             render/toks per syntax, pickle, apply.  Every event must be  *)
+(*             render/toks per syntax, pickle (fp0/fp1 fingerprints and,    *)
+(*             where recorded, tx0/tx1 renderings of original and copy),    *)
+(*             apply.  Every event must be                                  *)
 (*             in the total outcome type; a "raised" event is not.          *)
 (*                                                                          *)
 (* Verdicts are total: every failing <<line, clause>> of a trace is         *)
@@ -98,7 +100,8 @@ C17Line(tr, l) ==
          [] e.st = "render" -> IF e.k \in RenderOutcomes THEN <<>> ELSE <<F(l, "RenderOutcome")>>
          [] e.st = "toks"   -> IF e.k \in ToksOutcomes THEN <<>> ELSE <<F(l, "ToksOutcome")>>
          [] e.st = "pickle" -> IF e.k \notin PickleOutcomes THEN <<F(l, "PickleOutcome")>>
-                               ELSE IF e.fp1 = e.fp0 THEN <<>> ELSE <<F(l, "PickleChanged")>>
+                               ELSE IF e.fp1 = e.fp0 /\ ("tx0" \in DOMAIN e => e.tx1 = e.tx0)
+                                    THEN <<>> ELSE <<F(l, "PickleChanged")>>
          [] e.st = "apply"  -> IF e.k \in ApplyOutcomes THEN <<>> ELSE <<F(l, "ApplyOutcome")>>
          [] OTHER -> <<F(l, "UnknownEvent")>>
 
